@@ -663,6 +663,130 @@ def unkspans(ctx):
                "fewer candidates than the same word followed by more text" % k)
 
 
+def unkscan(ctx):
+    """UNKSCAN (C03, C01): `each unknown candidate carries the ids, cost and feature of every
+    unk.def entry of the first character's primary category`. In UnkHandler::scan_entries
+      * the loop runs over exactly offsets[base_id] .. offsets[base_id + 1] (both bounds read
+        from the offsets table at the primary category of the CharInfo it was given, nothing
+        clamps them);
+      * the entry it reads is entries[loop variable];
+      * the candidate handed to the callback has left_id / right_id / word_cost from that entry,
+        word_id = that loop variable and the span it was given."""
+    crate = ctx.facts("A").lib
+    E = Effects(crate)
+    p = "vibrato::dictionary::unknown::UnkHandler::scan_entries"
+    f = crate.fns.get(p)
+    if f is None or not f.body:
+        raise EngineError("UNKSCAN: anchor lost: %s" % p)
+    fa = E.fa(p)
+    S = Sym(E, fa, depth=30)
+    loc = fn_loc(crate, p)
+    names = f.j.get("param_names") or []
+    arg = {n: i + 1 for i, n in enumerate(names)}
+    # the range aggregate feeding the loop
+    rngs = [(b, i, s0["rv"]) for b, i, s0 in fa.stmts()
+            if s0.get("rv") and s0["rv"]["k"] == "agg" and str(s0["rv"].get("adt", "")).endswith("ops::Range")]
+    if len(rngs) != 1:
+        raise EngineError("UNKSCAN: expected one range loop in scan_entries, found %d" % len(rngs))
+    rb, ri, rrv = rngs[0]
+
+    def offsets_index(op):
+        """(is a read of self.offsets, linear form of the index) of a range bound"""
+        o = fa.origin(op)
+        cur = op
+        for _ in range(6):
+            o = fa.origin(cur)
+            if o[0] == "call" and sorted({strip_generics(x).rsplit("::", 1)[-1] for x in callee_paths(o[2])})[0] in ("index", "deref", "clone"):
+                t = o[2]
+                if len(t["args"]) == 2:
+                    base = show(S.operand(t["args"][0]))
+                    return ("offsets" in base and base.startswith("arg1")), _lin(S.operand(t["args"][1])), None
+                cur = t["args"][0]
+                continue
+            break
+        return False, (show(S.operand(op)), 0), o[0]
+    (lo_ok, (lo_t, lo_c), _), (hi_ok, (hi_t, hi_c), _) = offsets_index(rrv["ops"][0]), offsets_index(rrv["ops"][1])
+    okr = lo_ok and hi_ok and lo_t == hi_t and lo_c == 0 and hi_c == 1 and "base_id(" in lo_t and \
+        ("arg%d" % arg.get("cinfo", 4)) in lo_t
+    ctx.ob("UNKSCAN", "scan_entries|all-entries-of-the-primary-category", okr, fa.loc(rb, ri),
+           "the loop runs over offsets[base_id] .. offsets[base_id + 1] of the given CharInfo" if okr else
+           "scan_entries does not loop over exactly offsets[base_id]..offsets[base_id+1] (bounds: %s%+d .. "
+           "%s%+d%s): some unk.def entries of the category are never offered, or entries of another "
+           "category are" % (lo_t[:50], lo_c, hi_t[:50], hi_c,
+                             "" if lo_ok and hi_ok else "; a bound is not read straight from the offsets table"))
+    # the UnkWord aggregate
+    aggs = [(b, i, s0["rv"]) for b, i, s0 in fa.stmts()
+            if s0.get("rv") and s0["rv"]["k"] == "agg" and str(s0["rv"].get("adt", "")).endswith("unknown::UnkWord")]
+    if len(aggs) != 1:
+        raise EngineError("UNKSCAN: expected one UnkWord construction in scan_entries")
+    ab, ai, arv = aggs[0]
+    fields = dict(zip(arv["fields"], arv["ops"]))
+    # the loop variable: item of next() on the range iterator
+    nexts = calls_named(fa, "next")
+    if len(nexts) != 1:
+        raise EngineError("UNKSCAN: loop shape not recognised")
+    it_local = nexts[0][1]["dest"]["l"]
+
+    def is_loop_var(op):
+        pl = op_place(op)
+        for _ in range(8):
+            if pl is None:
+                return False
+            if pl["l"] == it_local:
+                return True
+            d = fa.single_def(pl["l"])
+            if d is None or d[2] != "assign" or d[3]["k"] not in ("use", "cast"):
+                return False
+            pl = op_place(d[3]["op"])
+        return False
+
+    def entry_field(op, name):
+        """operand = entries[loop var].<name>"""
+        pl = op_place(op)
+        for _ in range(8):
+            if pl is None:
+                return False
+            fs = [e.get("n") for e in pl["p"] if e != "*" and isinstance(e, dict) and "f" in e]
+            d = fa.single_def(pl["l"])
+            if fs:
+                if fs != [name]:
+                    return False
+                base = pl["l"]
+                for _ in range(8):
+                    d = fa.single_def(base)
+                    if d is None:
+                        return False
+                    if d[2] == "call":
+                        t = d[3]
+                        return (callee_of(t) or {}).get("name") == "index" and len(t["args"]) == 2 and \
+                            "entries" in show(S.operand(t["args"][0])) and is_loop_var(t["args"][1])
+                    rv = d[3]
+                    nxt = op_place(rv["op"]) if rv["k"] in ("use", "cast") else rv.get("place") if rv["k"] == "ref" else None
+                    if nxt is None or [e for e in nxt["p"] if e != "*"]:
+                        return False
+                    base = nxt["l"]
+                return False
+            if d is None or d[2] != "assign" or d[3]["k"] not in ("use", "cast"):
+                return False
+            pl = op_place(d[3]["op"])
+        return False
+    bad = []
+    for nm in ("left_id", "right_id", "word_cost"):
+        if nm not in fields or not entry_field(fields[nm], nm):
+            bad.append("%s = %s" % (nm, show(S.operand(fields[nm]))[:50] if nm in fields else "?"))
+    if "word_id" not in fields or not is_loop_var(fields["word_id"]):
+        bad.append("word_id = %s" % (show(S.operand(fields["word_id"]))[:50] if "word_id" in fields else "?"))
+    for nm in ("start_char", "end_char"):
+        o = fa.origin(fields[nm]) if nm in fields else ("?",)
+        if not (o[0] == "arg" and o[1] == arg.get(nm)):
+            bad.append("%s = %s" % (nm, show(S.operand(fields[nm]))[:40] if nm in fields else "?"))
+    ctx.ob("UNKSCAN", "scan_entries|candidate-is-the-entry-it-names", not bad, fa.loc(ab, ai),
+           "each candidate carries left_id/right_id/word_cost of entries[i], word_id = i and the given span"
+           if not bad else
+           "the unknown candidate built in scan_entries does not describe the entry it names (%s): "
+           "tokens report the parameters or feature of another unk.def entry" % "; ".join(bad))
+
+
 def charrange(ctx):
     """CHARRANGE (C03, C12): `A character's categories come from the last char.def range line
     covering it (inclusive bounds)`.
